@@ -306,12 +306,23 @@ func (in *Interp) fpToBits(f *Term) *Term {
 	if b, ok := in.fpBits[f]; ok {
 		return b
 	}
+	// structurally identical float terms share their bit pattern variable
+	key := f.Key()
+	if key != "" {
+		if b, ok := in.fpBitsByKey[key]; ok {
+			in.fpBits[f] = b
+			return b
+		}
+	}
 	w := 64
 	if f.S.K == SFP32 {
 		w = 32
 	}
 	b := in.freshVar("fpbits", BVSort(w))
 	in.fpBits[f] = b
+	if key != "" {
+		in.fpBitsByKey[key] = b
+	}
 	in.define(Eq(FPFromBits(b), f))
 	return b
 }
